@@ -249,7 +249,7 @@ class Lemma:
     def text(self):
         if getattr(self, 'pre', None):
             # one integer-literal fact about O is assumed (it holds in the Rust integer semantics, proved for the IEEE instance in FloatTricks.v)
-            return 'Lemma %s : %s.\nProof. intros O; destruct O; intros HN; intros; cbn in HN. Timeout %d (vm_compute; rewrite HN; vm_compute). all: reflexivity. Qed.' % (self.name, self.statement(), LEMMA_TIMEOUT[0])
+            return 'Lemma %s : %s.\nProof. intros O; destruct O; intros HN; intros; cbn in HN. Timeout %d (vm_compute; try rewrite HN; vm_compute). all: reflexivity. Qed.' % (self.name, self.statement(), LEMMA_TIMEOUT[0])
         if getattr(self, 'mode', None) == 'ieee':
             return 'Lemma %s : %s.\nProof. intros. Timeout %d (destruct_bools; vm_compute; reflexivity). Qed.' % (self.name, self.statement(), LEMMA_TIMEOUT[0])
         if getattr(self, 'intstd', False) == 'concrete':
@@ -366,7 +366,7 @@ LIB_THEOREMS = {
     'C10': ['AlgR.Rlit32_2', 'AlgR.R_cos_opp'],
     'C05': ['QuatAlg.rot_compose', 'QuatAlg.conj_hprod', 'AlgR.Rlit64_1'],
     'C12': ['InterpAlg.lerp_at_0', 'InterpAlg.lerp_at_1', 'InterpAlg.lerp_between', 'InterpAlg.u1_orth_input', 'InterpAlg.u2_orth_input'],
-    'C18': ['Sem.IntStd_IEEE', 'Sem.LitStd_IEEE'], 'C08': ['Sem.IntStd_IEEE', 'Sem.LitStd_IEEE'], 'C15': ['Sem.IntStd_IEEE'], 'C20': ['Sem.IntStd_IEEE', 'Sem.LitStd_IEEE'], 'C01': ['Sem.IntStd_IEEE', 'Sem.LitStd_IEEE', 'FloatTricks.floor_lane_correct', 'FloatTricks.not_sign_std', 'FloorTrick.floor_trick_correct'],
+    'C18': ['Sem.IntStd_IEEE', 'Sem.LitStd_IEEE'], 'C08': ['Sem.IntStd_IEEE', 'Sem.LitStd_IEEE'], 'C15': ['Sem.IntStd_IEEE'], 'C20': ['Sem.IntStd_IEEE', 'Sem.LitStd_IEEE'], 'C01': ['Sem.IntStd_IEEE', 'Sem.LitStd_IEEE', 'FloatTricks.floor_lane_correct', 'FloatTricks.ceil_lane_correct', 'FloatTricks.trunc_lane_correct', 'FloatTricks.round_lane_correct', 'FloatTricks.not_sign_std', 'FloatTricks.rem_floored_refuted'],
 }
 def lib_assumptions(pid):
     """Print Assumptions of the hand-written library theorems a property relies on (checked against the allow-list like the generated ones)"""
